@@ -60,16 +60,16 @@ type WInst struct {
 }
 
 type WAct struct {
-	Name     string `json:"name"`
-	I        int    `json:"i"`
-	K        int    `json:"k"`
-	V        *Ver   `json:"v,omitempty"`
-	Val      int    `json:"val"`
-	From     int    `json:"from"`
-	Seq      int    `json:"seq"`
-	Now      int    `json:"now"`
-	Changed  bool   `json:"changed"`
-	Captured bool   `json:"captured"`
+	Name     string         `json:"name"`
+	I        int            `json:"i"`
+	K        int            `json:"k"`
+	V        *Ver           `json:"v,omitempty"`
+	Val      int            `json:"val"`
+	From     int            `json:"from"`
+	Seq      int            `json:"seq"`
+	Now      int            `json:"now"`
+	Changed  bool           `json:"changed"`
+	Captured bool           `json:"captured"`
 	Img      map[string]Ver `json:"img,omitempty"`
 }
 
